@@ -93,6 +93,8 @@ package sessiontracker
 
 //@ func (*sessionTracker).RemoteLogin
 //@   atomic mu owns user
+//@   modifies out, "F!sessiontracker.user!*", "F!sessiontracker.SessionTrackerError!*", "M!map<string>^sessiontracker.user!*", "M!map<int>common.RemoteUserLogin!*", "S!^aucoalesce.Event", g_evsrc, g_evby, g_opened, g_disp
+//@   allocates "F!auditevent.AuditEvent!*", "M!*"
 //@   requires TrackerInv(o)
 //@   ensures[inv] result == nil ==> TrackerInv(o)
 //@   ensures[invalid] !ValidRUL(rul) ==> result != nil && len(out) == old(len(out)) && kept_objs_old("F!*") && kept_old("M!*")
@@ -118,6 +120,8 @@ package sessiontracker
 
 //@ func (*sessionTracker).AuditdEvent
 //@   atomic mu owns user
+//@   modifies out, "F!sessiontracker.user!*", "F!sessiontracker.SessionTrackerError!*", "M!map<string>^sessiontracker.user!*", "M!map<int>common.RemoteUserLogin!*", "S!^aucoalesce.Event", g_evsrc, g_evby, g_opened, g_disp
+//@   allocates "F!auditevent.AuditEvent!*", "M!*"
 //@   requires TrackerInv(o) && event != nil && alloc(event)
 //@   ghost g_disp := ite(!NoSess(event) && has(SMap(o), event.Session) && event.Type == auparse.AUDIT_CRED_DISP, upd(g_disp, event.Session, true),
 //@   |                 ite(Opens(o, event), upd(g_disp, event.Session, false), g_disp))
@@ -154,6 +158,8 @@ package sessiontracker
 
 //@ func (*sessionTracker).DeleteUsersWithoutLoginsBefore
 //@   atomic mu owns user
+//@   modifies out, "F!sessiontracker.user!*", "F!sessiontracker.SessionTrackerError!*", "M!map<string>^sessiontracker.user!*", "M!map<int>common.RemoteUserLogin!*", "S!^aucoalesce.Event", g_evsrc, g_evby, g_opened, g_disp
+//@   allocates "F!auditevent.AuditEvent!*", "M!*"
 //@   requires TrackerInv(o)
 //@   ensures[inv] TrackerInv(o)
 //@   ensures[dom] forall sid string :: has(SMap(o), sid) <==> (old(has(SMap(o), sid)) && !old(Stale(SMap(o)[sid], t)))
@@ -165,6 +171,8 @@ package sessiontracker
 
 //@ func (*sessionTracker).DeleteRemoteUserLoginsBefore
 //@   atomic mu owns user
+//@   modifies out, "F!sessiontracker.user!*", "F!sessiontracker.SessionTrackerError!*", "M!map<string>^sessiontracker.user!*", "M!map<int>common.RemoteUserLogin!*", "S!^aucoalesce.Event", g_evsrc, g_evby, g_opened, g_disp
+//@   allocates "F!auditevent.AuditEvent!*", "M!*"
 //@   requires TrackerInv(o)
 //@   ensures[inv] TrackerInv(o)
 //@   ensures[dom] forall pid int :: has(PMap(o), pid) <==> (old(has(PMap(o), pid)) && !(old(PMap(o)[pid].Source.LoggedAt) < t))
@@ -173,3 +181,10 @@ package sessiontracker
 //@   loop Iterate#1 invariant[shrink] forall k int :: has(PMap(o), k) ==> pre(has(PMap(o), k))
 //@   loop Iterate#1 invariant[vis] forall k int :: pre(has(PMap(o), k)) ==> ite(visited[k], has(PMap(o), k) <==> !(PMap(o)[k].Source.LoggedAt < t), has(PMap(o), k))
 //@   loop Iterate#1 invariant[frame] len(out) == old(len(out)) && kept("F!*") && kept("S!*") && kept("M!map<string>^sessiontracker.user!*") && kept("M!map<int>common.RemoteUserLogin!val*") && kept("G!out*") && kept("G!g_*")
+
+//@ func NewSessionTracker
+//@   requires eventWriter != nil
+//@   modifies nothing
+//@   allocates "F!sessiontracker.sessionTracker!*", "F!common.GenericSyncMap*", "M!*"
+//@   ensures[inv] TrackerInv(result)
+//@   ensures[fresh] fresh(result)
